@@ -10,7 +10,7 @@ from vp.gens import meta as gm, recording as rec, np2
 
 ID = "C04"
 LEVEL = "fault_enumeration"
-RULE = ("A history is a list of up to 6 NP2Converter.process(overwrite) runs, each with a fresh converter, options "
+RULE = ("A history is a list of up to 6 NP2Converter.process(overwrite) runs, each with a fresh converter or (one run in three) on the converter object of the previous run, options "
         "{post_check, compress, delete_original} in {F,T}^3 and optionally a crash (BaseException) raised at the k-th "
         "instrumented event: every Reader.read, _split2shanks per window and stream, _closefiles, write_meta_data per file, "
         "check_NP24 entry, mtscomp.compress before/after per file and before every compression batch inside it (output file open, partly written), Path.rename, Path.unlink, and after every Path.mkdir (shank folder creation). Initial state: NP2.4 "
@@ -78,7 +78,9 @@ def enum_cases(desc):
         first = dict(b["first"], crash=k)
         yield {"mode": "base", "name": b["name"], "spec": b["spec"], "cbin": b["cbin"], "kind": "np2", "content_seed": 11,
                "runs": list(b.get("pre", [])) + [first, _run(overwrite=False, compress=b["first"]["compress"]),
-                                                _run(overwrite=True, compress=b["first"]["compress"])]}
+                                                # every other overwrite retry re-uses the converter object of the run before
+                                                dict(_run(overwrite=True, compress=b["first"]["compress"]),
+                                                     same_object=(k % 2 == 0), reinit=(k % 4 == 0))]}
 
 
 def _count_events(b):
@@ -94,6 +96,7 @@ def _count_events(b):
         out = w.run(dict(b["first"], crash=None))
         return out["events"]
     finally:
+        w.drop_prev()
         shutil.rmtree(root, ignore_errors=True)
 
 
@@ -117,6 +120,11 @@ def _history(draw):
         runs.append(_run(overwrite=draw(st.booleans()), post_check=draw(st.booleans()), compress=draw(st.booleans()),
                          delete_original=draw(st.sampled_from([False, False, True])),
                          crash=draw(st.one_of(st.none(), st.integers(0, 70)))))
+        if runs[:-1] and draw(st.integers(0, 2)) == 0:
+            # process() is called again on the converter object of the previous run (its options apply), optionally after
+            # init_params() has been called again
+            runs[-1]["same_object"] = True
+            runs[-1]["reinit"] = draw(st.booleans())
         if draw(st.integers(0, 4)) == 0:
             runs[-1]["corrupt"] = {"shank": draw(st.integers(0, 3)), "pos": draw(st.sampled_from([0.0, 0.3, 0.55, 0.8, 0.999])),
                                    "col": draw(st.integers(0, 15))}
@@ -154,6 +162,12 @@ class World:
         self.shank = np2.shank_of_channels(spec) if self.gen in ("NP2.4", "NP2.1") else np.zeros(self.nap, int)
         self.shanks = sorted(set(self.shank.tolist()))
         self.original_deleted_legitimately = False
+        self.prev = None  # (converter object, options) of the last uninterrupted run, kept for "same_object" runs
+
+    def drop_prev(self):
+        if self.prev is not None:
+            self._release(self.prev[0])
+            self.prev = None
 
     # ---- disk inspection -----------------------------------------------------------------------
     def ap_path(self):
@@ -219,12 +233,25 @@ class World:
         if ap is None:
             out["skipped"] = True
             return out
-        conv = ctx.call("C04.construct", npx.NP2Converter, ap, post_check=r["post_check"], delete_original=r["delete_original"],
-                        compress=r["compress"])
-        if conv is ctx.CRASH:
-            out["error"] = True
-            return out
-        conv.init_params(nwindow=WINDOW)
+        if r.get("same_object") and self.prev is not None and Path(self.prev[0].ap_file) == ap:
+            conv, r0 = self.prev
+            self.prev = None
+            r = dict(r0, overwrite=r["overwrite"], crash=r["crash"], corrupt=r.get("corrupt"), same_object=True, reinit=r.get("reinit"))
+            ctx.label("same_converter_object")
+            if r.get("reinit"):
+                if ctx.call("C04.init_params", conv.init_params, nwindow=WINDOW) is ctx.CRASH:
+                    out["error"] = True
+                    return out
+        else:
+            self.drop_prev()
+            r = dict(r, same_object=False)
+            conv = ctx.call("C04.construct", npx.NP2Converter, ap, post_check=r["post_check"], delete_original=r["delete_original"],
+                            compress=r["compress"])
+            if conv is ctx.CRASH:
+                out["error"] = True
+                return out
+            conv.init_params(nwindow=WINDOW)
+        out["effective"] = r
         cnt = faults.Counter(fail_at=r["crash"], exc=faults.Crash)
         targets = [(sg.Reader, "read", "read", "before"), (npx.NP2Converter, "_split2shanks", "split", "before"),
                    (npx.NP2Converter, "_closefiles", "close", "before"), (sg, "write_meta_data", "meta", "before"),
@@ -246,7 +273,10 @@ class World:
             out["crashed"] = True
         finally:
             npx.NP2Converter.check_NP24 = orig_check
-            self._release(conv)
+            if out["crashed"] or out["status"] is ctx.CRASH or isinstance(out["status"], BaseException):
+                self._release(conv)  # the process died / the run raised: the object is not used again
+            else:
+                self.prev = (conv, r)
         if isinstance(out["status"], AssertionError):
             out["refused"] = True
         out["events"] = cnt.n
@@ -329,6 +359,14 @@ class World:
 def run_case(case, ctx):
     with rec.scratch_dir(ctx) as root:
         w = World(case, ctx, root)
+        try:
+            _run_history(case, ctx, w)
+        finally:
+            w.drop_prev()
+
+
+def _run_history(case, ctx, w):
+    if True:
         gen = w.gen
         ctx.label("kind_" + case["kind"], gen, "cbin_in" if case["cbin"] else "bin_in", case.get("name", "random_history"))
         interrupted_before = False
@@ -338,6 +376,7 @@ def run_case(case, ctx):
             had_output = w.output_exists()
             fresh_or_partial = (not had_output) or interrupted_before
             res = w.run(r)
+            r = res.get("effective", r)
             if res.get("skipped"):
                 ctx.label("skipped_no_original")
                 continue
